@@ -11,6 +11,13 @@ func init() {
 			"arithmetic beyond 'read in units of 4 bytes with an all-zero test'.",
 		run: func(c *Ctx, r *Report) {
 			ruleMultiStream(c, r, "")
+			// every member of a chain is a stream of its own: the container checks must have the exact
+			// relations (an empty member with zero records is valid) and LZMA2 chunk effects
+			ruleXZReaderChecks(c, r, "")
+			{
+				t := getChunkTables(c, r, "")
+				ruleStartChunkEffects(c, r, t, "")
+			}
 			xzReader := c.Cone(nonNilFns(c.Func("", "NewReader"), c.Func("", "ReaderConfig.NewReader"), c.Func("", "Reader.Read"))...)
 			ruleEOF(c, r, nonNilFns(c.Func("", "NewReader"), c.Func("", "ReaderConfig.NewReader"), c.Func("", "Reader.Read")), xzReader, "")
 			ruleIO(c, r, xzReader, "", true)
